@@ -1,7 +1,7 @@
 """Property -> rule list, with the text that goes into the evidence."""
 import importlib
 
-RULE_MODULES = ["su", "w", "xn", "gv", "r", "lmt"]
+RULE_MODULES = ["su", "w", "xn", "gv", "r", "lmt", "k"]
 
 COMMON_ASSUME = [
     "clang 14's parse, constant evaluation and CFG of each unit are faithful to the C semantics",
@@ -92,7 +92,9 @@ PROPS = {
               "(V3).",
               "equality of the repeated and the retyped execution (relational, behavioural); the "
               "bounds of the recording/push-back buffers are decided under C05 (B1)."),
-    "C10": _p(["R4", "R5", "R6"], "wip.", "wip."),
+    "C10": _p(["R4", "R5", "R6", "K4"], "wip.", "wip."),
+    "C17": _p(["K1"], "wip.", "wip."),
+    "C18": _p(["O1", "K2", "K3", "B7"], "wip.", "wip."),
     "C12": _p(["L1", "L2", "L3", "L4"], "wip.", "wip."),
     "C13": _p(["M2", "M1"], "wip.", "wip."),
     "C14": _p(["M1", "T1", "L2"], "wip.", "wip."),
